@@ -103,7 +103,7 @@ def _rereplicate(ctx, repo):
               "the next departure can lose it")
     ur = repo.func("pydcop.infrastructure.discovery", "Discovery.unregister_replica")
     ctx.touch(ur)
-    g0 = [st for st in ur.node.body if isinstance(st, ast.If) and any(isinstance(y, ast.Return) for y in st.body)]
+    g0 = [st for st in ur.node.body if isinstance(st, ast.If) and isinstance(st.test, ast.Compare) and isinstance(st.test.ops[0], ast.NotIn) and norm(st.test.left) == ur.params[1]]
     ctx.check(len(g0) >= 1 and norm(g0[0].test) == f"{ur.params[1]} not in self._replicas_data", "R-REREPLICATE", "Discovery.unregister_replica only gives up when the replica table does not know the computation", ur,
               g0[0] if g0 else ur.node, "during a repair the candidates forget the orphan as a *computation*; their replica must still be un-published when they drop it")
     alr = cls.methods["_answer_lost_requests"]
